@@ -1117,6 +1117,17 @@ def analyse_wait_helper(ctx: Ctx, h: FuncInfo) -> Optional[WaitHelper]:
                 flat += list(t.elts) if isinstance(t, (ast.Tuple, ast.List)) else [t]
             if any(isinstance(t, ast.Name) and t.id == p_running for t in flat):
                 notes.append("PENDING-REBOUND: " + norm_src(n)[:100])
+    # every future of the done set is processed: the loop over it is never left early
+    if done_loop is not None:
+        for x in own_walk(done_loop):
+            if isinstance(x, (ast.Break, ast.Return)):
+                notes.append("EARLY-EXIT: " + norm_src(x)[:60])
+    # the wait blocks until the return_when condition holds: a timeout turns it into a poll that may return with nothing done
+    tmo = next((k.value for k in wait_call.keywords if k.arg == "timeout"), None)
+    if tmo is None and kind == "conc" and len(wait_call.args) >= 2:
+        tmo = wait_call.args[1]
+    if tmo is not None and not (isinstance(tmo, ast.Constant) and tmo.value is None):
+        notes.append("TIMEOUT: " + norm_src(tmo)[:60])
     return WaitHelper(h, kind, p_running, p_mode, const_mode, p_graph, p_runnable, ret_index, early, wait_call,
                       awaited, done_loop, checks, before, removes, unions, notes)
 
